@@ -162,8 +162,8 @@ def drive_smtp(case, queue, state):
             a.sendall(b'Subject: c02\r\n\r\nbody\r\n.\r\n')
             if case.get('slow') is not None:
                 # the reply must not come while a write is still in progress
-                import select as _s
-                r, _, _ = gevent.select.select([a], [], [], 0.05)
+                from gevent import select as gselect
+                r, _, _ = gselect.select([a], [], [], 0.05)
                 if r:
                     out['early'] = True
                 state['stored_while_waiting'] = snapshot_store(state)
@@ -226,7 +226,9 @@ def drive_wsgi_loopback(case, queue, state):
     import gevent
     from gevent import socket
     from slimta.edge.wsgi import WsgiEdge
-    edge = WsgiEdge(queue, hostname='edge.example', listener=('127.0.0.1', 0))
+    edge = WsgiEdge(queue, hostname='edge.example')
+    edge.server = edge.build_server(('127.0.0.1', 0))       # (a listener without a TLS context cannot be given to the constructor)
+    edge.server.log = None
     edge.server.start()
     port = edge.server.server_port
     environ, body = wsgi_environ(case)
